@@ -43,14 +43,51 @@ def adapter_cases(res, have_drv):
     res.cov["evaluations"] = res.cov.get("evaluations", 0) + n
 
 
+def executor_callback_cases(res, have_drv):
+    """C08: "schedule on calloop's own handles from inside any callback completes without panic and has the effect it
+    would have outside": the executor's own callback schedules the next task on the same executor (harness `vh execcb`,
+    query `chain N`); every task must be delivered, in order, no panic."""
+    import os
+    import common as C
+    from props import c10
+    lines = ["chain %d" % n for n in (1, 2, 5, 40)]
+    impl, model = c10.exec_cb_queries(lines, have_drv)
+    for i, (q, a) in enumerate(zip(lines, impl)):
+        n = int(q.split()[1])
+        want = "chain %d delivered=[%s] panicked=0" % (n, ",".join(str(x) for x in range(n + 1)))
+        v = None
+        if "panicked=1" in a:
+            v = "scheduling a task from inside the executor's own callback panicked (a borrow held across the callback?)"
+        elif a != want:
+            v = "tasks scheduled from inside the executor's callback: expected `%s`, got `%s`" % (want, a)
+        if v:
+            res.cov["impl_monitor_failures"] += 1
+            if len(res.violations) < 3:
+                d = C.write_replay(res.pid, {"case.execcb": q + "\n", "impl.obs": a + "\n", "verdict.txt": v + "\n"})
+                res.violations.append(("C08 on the real executor: %s   [%s]" % (v, q), os.path.join(d, "case.execcb")))
+        elif model is not None and model[i] != a and not res.broken:
+            res.broken.append("correspondence (executor callback): `%s`: impl `%s` vs model `%s`" % (q, a, model[i]))
+    res.cov["executor_callback_cases"] = len(lines)
+    res.cov["evaluations"] = res.cov.get("evaluations", 0) + len(lines)
+
+
 def run(res, tier, seed, search=False, have_drv=True):
     coreprop.run_property(res, PID, PROFILES, tier, seed, search, have_drv)
     adapter_cases(res, have_drv)
+    executor_callback_cases(res, have_drv)
     if res.violations:
         res.broken = []
 
 
 def replay(path):
+    if path.endswith(".execcb"):
+        from props import c10
+        q = open(path).read().strip()
+        impl, _ = c10.exec_cb_queries([q], False)
+        n = int(q.split()[1])
+        want = "chain %d delivered=[%s] panicked=0" % (n, ",".join(str(x) for x in range(n + 1)))
+        print(impl[0])
+        return 0 if impl[0] == want else 1
     case = [l.rstrip("\n") for l in open(path) if l.strip()]
     if len(case) > 1 and case[1].startswith("mode "):
         from props import c17
